@@ -69,6 +69,14 @@ def decLoop (s : Bytes) : Nat → Nat → Nat → Except Fault (Option (Nat × N
       else if c = 32 then .ok (some (i, n))
       else .ok none
 
+/-- `while (*token != ' ' && *token != 0) { token++; }` -/
+def skipWord (s : Bytes) : Nat → Nat → Except Fault Nat
+  | 0, _ => .error .outOfFuel
+  | fuel + 1, i =>
+    match charAt s i with
+    | .error e => .error e
+    | .ok c => if c ≠ 32 ∧ c ≠ 0 then skipWord s fuel (i + 1) else .ok i
+
 /-- `get_num(token, num)`: `none` = `nullptr` -/
 def getNum (needDigit : Bool) (s : Bytes) (token : Nat) : Except Fault (Option (Nat × Nat)) :=
   match skipSpaces s (s.size + 1) token with
@@ -84,43 +92,39 @@ def getNum (needDigit : Bool) (s : Bytes) (token : Nat) : Except Fault (Option (
         | .ok c1 =>
           if c0 = 48 ∧ c1 = 120 then getHex needDigit s (t + 2)
           else
-            -- `s = strlen(token)`; `token[s-1] == 'h'` (s > 0 here): the last character of the whole string
-            match charAt s (s.size - 1) with
+            -- `while (token[s] != 0 && token[s] != ' ') s++;  token[s-1] == 'h'` (s > 0 here): the last
+            -- character of this number
+            match skipWord s (s.size + 1) t with
             | .error e => .error e
-            | .ok last =>
-              if last = 104 then getHex needDigit s t
-              else
-                let neg := c0 = 45
-                match decLoop s (s.size + 1) (if neg then t + 1 else t) 0 with
-                | .error e => .error e
-                | .ok none => .ok none
-                | .ok (some (i, n)) => .ok (some (i, if neg then (M32 - n) % M32 else n))
-
-/-- `while (*token != ' ' && *token != 0) { token++; }` -/
-def skipWord (s : Bytes) : Nat → Nat → Except Fault Nat
-  | 0, _ => .error .outOfFuel
-  | fuel + 1, i =>
-    match charAt s i with
-    | .error e => .error e
-    | .ok c => if c ≠ 32 ∧ c ≠ 0 then skipWord s fuel (i + 1) else .ok i
+            | .ok w =>
+              match charAt s (w - 1) with
+              | .error e => .error e
+              | .ok last =>
+                if last = 104 then getHex needDigit s t
+                else
+                  let neg := c0 = 45
+                  match decLoop s (s.size + 1) (if neg then t + 1 else t) 0 with
+                  | .error e => .error e
+                  | .ok none => .ok none
+                  | .ok (some (i, n)) => .ok (some (i, if neg then (M32 - n) % M32 else n))
 
 /-- `get_address(token, address)`: `(returned pointer or none, *address)`.  `lookup` is `symbols.lookup` on the
-rest of the string from the first non-blank. -/
+first word (up to the next blank); a symbol's address is multiplied by `bytes_per_address` like a number. -/
 def getAddress (needDigit : Bool) (lookup : List UInt8 → Option Nat) (bpa : Nat) (s : Bytes) (token : Nat) :
     Except Fault (Option Nat × Nat) :=
   match skipSpaces s (s.size + 1) token with
   | .error e => .error e
   | .ok t =>
-    match lookup (s.toList.drop t) with
-    | some a =>
-      match skipWord s (s.size + 1) t with
-      | .error e => .error e
-      | .ok i => .ok (some i, a)
-    | none =>
-      match getNum needDigit s t with
-      | .error e => .error e
-      | .ok none => .ok (none, 0)
-      | .ok (some (i, n)) => .ok (some i, (n * bpa) % M32)
+    match skipWord s (s.size + 1) t with
+    | .error e => .error e
+    | .ok w =>
+      match lookup ((s.toList.drop t).take (w - t)) with
+      | some a => .ok (some w, (a * bpa) % M32)
+      | none =>
+        match getNum needDigit s t with
+        | .error e => .error e
+        | .ok none => .ok (none, 0)
+        | .ok (some (i, n)) => .ok (some i, (n * bpa) % M32)
 
 /-! ### `write` / `write16` / `write32` -/
 
@@ -260,9 +264,13 @@ def printLoop (cap step perItem wrapMask : Nat) (guard : Bool) : Nat → Nat →
           else printLoop cap step perItem wrapMask guard fuel ((start + step) % M32) stop o1
     else .ok o
 
-/-- `print8/16/32` after `get_range` succeeded; `alignMask` as tested on `start` (0 for print8) -/
-def print (cap step perItem wrapMask alignMask : Nat) (guard : Bool) (start stop : Nat) : Except Fault (Option PrintOut) :=
-  let stop := if start ≥ stop then (start + 128) % M32 else stop
+/-- `print8/16/32` after `get_range` succeeded; `alignMask` as tested on `start` (0 for print8).  The end is
+inclusive: `end = (end / bpa) * bpa + (bpa - 1); if (end != 0xffffffff) end++;` -/
+def print (cap step perItem wrapMask alignMask bpa : Nat) (guard : Bool) (start stop : Nat) : Except Fault (Option PrintOut) :=
+  let stop := if start ≥ stop then (start + 128) % M32
+              else
+                let e := ((stop / bpa) * bpa + (bpa - 1)) % M32
+                if e ≠ 4294967295 then e + 1 else e
   if start &&& alignMask ≠ 0 then .ok none
   else
     match printLoop cap step perItem wrapMask guard ((stop - start) + 1) start stop {} with
@@ -289,10 +297,9 @@ def walkLoop (inUse : Nat → Bool) (pageSize : Nat) (guard : Bool) : Nat → Na
       else walkLoop inUse pageSize guard fuel ((n + dataSize) % M32) stop currStart currEnd valid acc
     else .ok (if valid then (currStart, currEnd) :: acc else acc)
 
-/-- `disasm(start, end)`: `start0` = the argument `start` (`int curr_start = start;` is taken before the
-scaling), `start`, `stop` = the arguments multiplied by `bytes_per_address` (mod 2^32) -/
-def walk (inUse : Nat → Bool) (pageSize : Nat) (guard : Bool) (start0 start stop : Nat) : Except Fault (List (Nat × Nat)) :=
-  walkLoop inUse pageSize guard (M32 / pageSize + 2) start stop start0 (start - start % pageSize + (pageSize - 1)) true []
+/-- `disasm(start, end)` (byte addresses: `memory.low_address` / `high_address`) -/
+def walk (inUse : Nat → Bool) (pageSize : Nat) (guard : Bool) (start stop : Nat) : Except Fault (List (Nat × Nat)) :=
+  walkLoop inUse pageSize guard (M32 / pageSize + 2) start stop start (start - start % pageSize + (pageSize - 1)) true []
 
 /-! ### `is_command_valid` over the command table (`command_names[]`, re-emitted by the translator) -/
 
